@@ -365,6 +365,24 @@ theorem coneDist_eq_angle (m1 m2 : M3 ℝ) (h1 : m1.Orth) (h2 : m2.Orth) :
 theorem coneDist_range (m1 m2 : M3 ℝ) : 0 ≤ coneDist (realLibm at2) m1 m2 ∧ coneDist (realLibm at2) m1 m2 ≤ 180 := by
   simp only [coneDist, toDeg_real]
   exact ⟨mul_nonneg (arccos_nonneg _) (by positivity), deg_le _ (arccos_le_pi _)⟩
+
+/-- the cone distance is symmetric — for ALL matrices (the dot product of the two normalised z-axis images is) -/
+theorem coneDist_symm (m1 m2 : M3 ℝ) : coneDist (realLibm at2) m1 m2 = coneDist (realLibm at2) m2 m1 := by
+  have h : coneCos (realLibm at2) m1 m2 = coneCos (realLibm at2) m2 m1 := by
+    simp only [coneCos, V3.dot]
+    congr 2
+    ring
+  simp only [coneDist, h]
+
+/-- … and vanishes for equal orientations -/
+theorem coneDist_self (m : M3 ℝ) (h : m.Orth) : coneDist (realLibm at2) m m = 0 := by
+  have e : V3.normSq (⟨0, 0, 1⟩ : V3 ℝ) = 1 := by simp [V3.normSq, V3.dot]
+  have n1 : V3.normSq (m.apply ⟨0, 0, 1⟩) = 1 := by rw [h.normSq_apply, e]
+  have hc : coneCos (realLibm at2) m m = 1 := by
+    rw [coneCos_eq_dot at2 m m h h]; exact n1
+  simp only [coneDist, toDeg_real, hc]
+  show Real.arccos 1 * (180 / Real.pi) = 0
+  rw [Real.arccos_one, zero_mul]
 end cone
 
 /-! ### in-plane distance, batches of normals, normals → Euler angles (any ordered field) -/
